@@ -89,9 +89,17 @@ func RoundTrip(src []byte, e, pre, mode int) ([]byte, error) {
 		f, err := decorator.ParseFile(fset, "x.go", src, m)
 		if err != nil {
 			// With DeclarationErrors go/parser itself reports redeclarations etc. for
-			// syntactically valid files; the tree is still complete and must round-trip.
-			if _, perr := parser.ParseFile(token.NewFileSet(), "x.go", src, m|parser.ParseComments); perr == nil || f == nil {
+			// syntactically valid files; the tree is still complete and must round-trip. If the
+			// mode makes go/parser give up in the package clause ("invalid package name _") there
+			// is no tree: the file is parsed without that mode instead.
+			if _, perr := parser.ParseFile(token.NewFileSet(), "x.go", src, m|parser.ParseComments); perr == nil {
 				return nil, err
+			}
+			if f == nil {
+				f, err = decorator.ParseFile(token.NewFileSet(), "x.go", src, parser.ParseComments)
+				if err != nil {
+					return nil, err
+				}
 			}
 		}
 		if err := decorator.Fprint(&buf, f); err != nil {
